@@ -19,5 +19,6 @@ From Chess3 Require Export Model.SeeStreams.
 From Chess3 Require Export Spec.SearchObs Model.Pv Model.IterDeepen.
 From Chess3 Require Export Model.Rep3Stream.
 From Chess3 Require Export Spec.RepJudge.
+From Chess3 Require Export Model.Shuffle Model.Batch Model.Chunker Spec.Perm.
 
 Extraction Language OCaml.
